@@ -401,12 +401,24 @@ def explore(ctx, drv, model, cases, what, search=False):
             pending.append((idx, alts))
     first = eval_alts(ctx, drv, [alts[0] for _, alts in pending])
     evaluated = {idx: [f] for (idx, _), f in zip(pending, first)}
+    # second round, in one batch: the remaining alternatives of the cases whose first one differs
+    todo = [(idx, alts) for idx, alts in pending
+            if len(alts) > 1 and evaluated[idx][0] != split_impl(impl[idx])[0]
+            and not split_impl(impl[idx])[2] and not is_crash(split_impl(impl[idx])[0])]
+    flat = [(idx, a) for idx, alts in todo for a in alts[1:]]
+    for (idx, _), r in zip(flat, eval_alts(ctx, drv, [a for _, a in flat]) if flat else []):
+        evaluated[idx].append(r)
     nd = 0
     for idx, c in enumerate(cases):
         canon, extra, oracle = split_impl(impl[idx])
         crashed = is_crash(canon)
         k = c.split()[0]
         m = mod[idx]
+        for f in extra:
+            if f.startswith("EX:") and f[3:].isdigit():
+                STATS["exact_members"] += int(f[3:])
+        if canon.startswith("FIN "):
+            STATS["members"] += int(canon.split()[1])
         if oracle or crashed:
             cls = oracle.split(":")[0] if oracle else "crash"
             ctx.violation(key_for(c, cls, crashed),
@@ -418,13 +430,7 @@ def explore(ctx, drv, model, cases, what, search=False):
         ctx.cov["traces_validated_against_impl"] += 1
         ok = False
         if idx in evaluated:
-            alts = [a for i2, a in pending if i2 == idx][0]
-            if evaluated[idx][0] == canon:
-                ok = True
-            else:
-                rest = eval_alts(ctx, drv, alts[1:]) if len(alts) > 1 else []
-                evaluated[idx] += rest
-                ok = canon in rest
+            ok = canon in evaluated[idx]
             shown = " || ".join(evaluated[idx])
         elif k in ("L", "M", "N"):
             ok = (canon == m)
@@ -441,6 +447,9 @@ def explore(ctx, drv, model, cases, what, search=False):
         ctx.cov["samples"] += [{"case": c[:200], "impl": i[:300], "model": m[:300]}
                                for c, i, m in list(zip(cases, impl, mod))[:3]]
     return nd
+
+
+STATS = {"exact_members": 0, "members": 0}
 
 
 def nontrivial(c):
@@ -470,6 +479,9 @@ def run(ctx):
         explore(ctx, drv, model, cases, what)
         seen.update(c for c in cases if nontrivial(c))
     ctx.cov["distinct_nontrivial"] = len(seen)
+    ctx.notes.append("oracle: %d members of returned finite sets, %d of them decided exactly (rational arithmetic or "
+                     "expand(p(root)) reducing to a number), the others by eval_complex_double residuals (testing)"
+                     % (STATS["members"], STATS["exact_members"]))
     if ctx.broken and not ctx.violations:
         # a proof or the tie broke: search harder for a concrete failing input
         extra = gen_poly_cases(ctx.rng, "quick") + gen_rational_cases(ctx.rng, "thorough")[:300] + gen_lin_cases(ctx.rng, "thorough")[:300]
@@ -481,9 +493,12 @@ def run(ctx):
                        "dependent rows, a sin + b cos + c.  Non-trivial = degree >= 2, or n >= 2, or rational/trigonometric; "
                        "distinct = distinct case strings")
     ctx.assumptions += [
-        "the theorems interpret templates in an arbitrary field of characteristic 0 with total functions sqrt/cbrt satisfying "
-        "sqrt(x)^2 = x, cbrt(x)^3 = x and i^2 = -1; which complex branch the library's pow denotes, and that its automatic "
-        "rewrites of powers preserve that value, is covered by the numeric oracle only (testing)",
+        "the theorems interpret templates in an arbitrary field of characteristic 0 (decidable equality) with arbitrary "
+        "functions sqrt/cbrt and an element i; they ask sqrt(a)^2 = a, cbrt(a)^3 = a, i^2 = -1 only for the radicals the "
+        "computation on the given polynomial relies on (rad_ok / solve_poly_radicals), or everywhere (radicals_total); which "
+        "complex branch the library's pow denotes, and that its automatic rewrites of powers preserve that value, is covered "
+        "by the numeric oracle only (testing)",
+        "linsolve: the theorems of C24 about fraction_free_gauss_jordan_solve and submatrix_dense are used (coq/C24/Dense*.v)",
         "the library folds arithmetic on Integer/Rational arguments exactly and sqrt of a rational square to a rational "
         "(model: computations in Q, [sqrt_exact]); two members of one result set that denote different numbers are different trees",
         "templates are evaluated with the library's add/sub/mul/div/neg/sqrt/pow (trusted here, validated by C03/C04/C07)",
